@@ -285,7 +285,20 @@ def _is_call_to(index, caller_fi, node, targets_q):
         return None
     funcs = [t for t in targets if not isinstance(t, tuple)]
     if len(funcs) == 1 and funcs[0].qualname in targets_q and how in ('exact', 'cha', 'unique-name'):
-        return funcs[0]
+        f0 = funcs[0]
+        if f0.outer is not None and isinstance(node.func, ast.Name):
+            # a nested def whose name has another binding in the enclosing scope (`pred = is_square` in one branch, `def pred` in
+            # the other): the call does not always reach this definition, so it must not be inlined
+            nm = node.func.id
+            other = 0
+            for n in walk_own(f0.outer.node):
+                if isinstance(n, ast.Name) and n.id == nm and isinstance(n.ctx, ast.Store):
+                    other += 1
+                elif isinstance(n, (ast.FunctionDef, ast.AsyncFunctionDef, ast.ClassDef)) and n.name == nm and n is not f0.node:
+                    other += 1
+            if other:
+                return None
+        return f0
     return None
 
 
